@@ -323,6 +323,8 @@ func (ch *Chain) Deliver(i int, qc *lib.QuorumCertificate, cached *lib.BlockResu
 		if e := n.RCM.Sync(); e != nil {
 			return e
 		}
+		// what bft.NewHeight() does on a running node: height, root height, committee and committee data of the new height
+		n.C.Consensus.RefreshRootChainInfo()
 	}
 	return err
 }
